@@ -727,6 +727,43 @@ def gen_assign_cases(ctx: Ctx, n: int, salt: str = "assign", exhaustive_dtypes=F
     return out
 
 
+def exhaustive_assign_cases():
+    """Every bucket x every allowed stored element type x every entry point x every forbidden element type:
+    fill, one illegal assignment, read (2x2 detectors; 3-D photons through array_3d and the detector setter)."""
+    cases = []
+    rows, cols = 2, 2
+    n = rows * cols
+
+    def np_(dt, data):
+        return {"xr": None, "shape": [rows, cols], "dt": dt, "data": data}
+
+    def x3(dt, data):
+        return {"xr": {"dims": [0, 1, 2], "wl": [400, 420]}, "shape": [2, rows, cols], "dt": dt, "data": data}
+
+    def vals(dt, m):
+        lo, _ = INT_RANGE.get(dt, (-10, 10))
+        return [(-3 if lo < 0 and dt != "bool" else 1)] + [(i % 2 if dt == "bool" else i + 2) for i in range(m - 1)]
+
+    for det, bucket in [("ccd", "photon"), ("cmos", "pixel"), ("apd", "signal"), ("ccd", "image"), ("mkid", "phase")]:
+        entries = ["set"] + (["update"] if bucket != "photon" else ["array_2d", "set3d", "dassign3"]) + (["dassign"] if bucket != "phase" else [])
+        for good in ALLOWED[bucket]:
+            for e in entries:
+                three = e in ("set3d", "dassign3")
+                fill = ({"op": "set3d", "arr": x3(good, list(range(1, 2 * n + 1)))} if three else
+                        {"op": "set", "arr": np_(good, list(range(1, n + 1)))})
+                for bad in forbidden_dtypes(bucket):
+                    a = x3(bad, vals(bad, 2 * n)) if three else np_(bad, vals(bad, n))
+                    if e in ("dassign", "dassign3"):
+                        o = {"op": "dassign", "other": {"kind": bucket, "rows": rows, "cols": cols, "content": a}}
+                    elif e == "array_2d":
+                        o = {"op": "set", "arr": a, "via": "array_2d"}
+                    else:
+                        o = {"op": e, "arr": a}
+                    cases.append({"det": det, "rows": rows, "cols": cols, "bucket": bucket,
+                                  "ops": [fill, o, {"op": "read3d" if three else "read"}]})
+    return cases
+
+
 def alphabet(bucket, rows, cols):
     """A fixed small alphabet of operations per bucket (exhaustive short sequences)."""
     fl = "float32"
@@ -1223,6 +1260,10 @@ def run(ctx: Ctx):
         ctx.cov["exhaustive_note"] = (f"all sequences of length <= 2 over the one-op alphabet of every bucket and all {len(e3)} "
                                       "sequences of length 3 over a reduced alphabet (photon, pixel, image, phase)")
         cases += e3
+        ea = exhaustive_assign_cases()
+        ctx.cov["exhaustive_note"] += (f"; all {len(ea)} (bucket, stored element type, entry point, forbidden element type) "
+                                       "assignments on a filled container")
+        cases += ea
     pairs, mism, viol, unm = evaluate(ctx, cases, "c")
     account(ctx, pairs, mism, unm, n_corpus)
     add_violations(ctx, viol)
@@ -1267,13 +1308,35 @@ def conditions(case, obs):
                 out.append(f"{k} mixed dtypes accepted")
         elif k in ("set", "set3d", "update"):
             out.append(f"{'photon' if bucket == 'photon' else 'base'}.{k} on {st} -> {tag}")
+            if o.get("arr") is not None and before is not None:
+                cls = operand_class(bucket, case["rows"], case["cols"], o["arr"])
+                if cls not in ("valid", "negative"):
+                    out.append(f"illegal assignment ({cls}) on a FILLED {'photon' if bucket == 'photon' else 'base'} container via {k}"
+                               f"{'/' + o['via'] if o.get('via') else ''} -> {tag}")
+                    if cls == "wrong_dtype":
+                        out.append(f"wrong dtype {o['arr']['dt']} on filled {bucket}")
         elif k in ("eq", "eqrev"):
             ot = o["other"]
             rel = ("other_kind" if ot["kind"] != bucket else
                    "same_geom" if (ot["rows"], ot["cols"]) == (case["rows"], case["cols"]) else "other_geom")
             out.append(f"eq {st} vs {state_class(ot['content'])} {rel} -> {res.get('v', tag)}")
+            oc = ot["content"]
+            if (before is not None and oc is not None and before["xr"] is not None and oc["xr"] is not None
+                    and before["data"] == oc["data"] and before["shape"] == oc["shape"] and before["xr"] != oc["xr"]):
+                how = ("other dims order" if before["xr"]["dims"] != oc["xr"]["dims"] else
+                       "no coordinate" if oc["xr"]["wl"] is None else "other wavelength grid")
+                out.append(f"{k} 3d vs 3d same numbers, {how} -> {res.get('v', tag)}")
         elif k == "dassign":
             out.append(f"dassign {bucket if bucket == 'photon' else 'base'} on {st} from {state_class(o['other']['content'])} -> {tag}")
+            if o["other"]["content"] is not None and before is not None:
+                cls = operand_class(bucket, case["rows"], case["cols"], o["other"]["content"])
+                if cls not in ("valid", "negative"):
+                    out.append(f"illegal assignment ({cls}) on a FILLED {'photon' if bucket == 'photon' else 'base'} container via dassign -> {tag}")
+                    if cls == "wrong_dtype":
+                        out.append(f"wrong dtype {o['other']['content']['dt']} on filled {bucket}")
+            if o["other"]["content"] is None and before is not None:
+                nxt = case["ops"][i + 1]["op"] if i + 1 < len(case["ops"]) else "end"
+                out.append(f"empty container assigned onto populated {bucket} ({st}) -> {tag}, then {nxt}")
         elif k == "dempty":
             out.append(f"dempty({o['reset']}) {bucket} {st}")
         elif k in ("read", "read3d", "asarray"):
@@ -1347,7 +1410,7 @@ def new_violations(ctx: Ctx):
 def search(ctx: Ctx):
     """A proof obligation or the correspondence broke: look harder for a concrete failing input."""
     ctx.log("searching for a concrete failing input (all pairs of the op alphabet, larger random budget)")
-    cases = exhaustive_cases(2) + gen_cases(ctx, 1500, "search", 0.5) + gen_eq_cases(ctx, 600, "search_eq") + gen_family_cases(ctx, 600, "search_fam") + gen_assign_cases(ctx, 500, "search_assign", True)
+    cases = exhaustive_cases(2) + exhaustive_assign_cases() + gen_cases(ctx, 1500, "search", 0.5) + gen_eq_cases(ctx, 600, "search_eq") + gen_family_cases(ctx, 600, "search_fam") + gen_assign_cases(ctx, 500, "search_assign", True)
     for b in ctx.broken:
         if isinstance(b.case, dict) and "case" in b.case:
             cases.append(b.case["case"])
